@@ -2,7 +2,7 @@
 (* C13: judges records of the real text string code.                                   *)
 (* unit record: EncodeUTF16String / EscapedUTF16String / StringLiteralToString /        *)
 (* HexLiteralToString on one text; e2e record: the text stored in and read back from a  *)
-(* real PDF (via = property | keyword | bookmark).                                      *)
+(* real PDF (via = property | keyword | bookmark); tag names the syntax-spelling class.  *)
 (* Ordered: the records must be exactly the scalar values Base, Base+1, ... in order  *)
 (* (completeness of the exhaustive sweep is checked here, not assumed).                 *)
 EXTENDS Lex, TLC, Json
@@ -18,7 +18,15 @@ FailsUnit(r) ==
   (IF r.eerr \/ ~EscapeOK(r.esc) \/ RefUnescape(r.esc) # TextBytes(r.cps) THEN {"stored-literal"} ELSE {}) \cup
   (IF r.lerr \/ r.lit # Utf8Bytes(r.cps) THEN {"read-literal"} ELSE {}) \cup
   (IF r.herr \/ r.hx # Utf8Bytes(r.cps) THEN {"read-hex"} ELSE {})
-FailsE2E(r) == IF r.gerr \/ r.got # Utf8Bytes(r.cps) THEN {"e2e"} ELSE {}
+(* e2e text = pre copies of the code point fill, then cps, then post copies of fill; the expected UTF-8 bytes are *)
+(* addressed by index so that texts of several KiB are judged in linear time.                                 *)
+E2EOk(r) ==
+  LET f == Utf8(r.fill)  lf == Len(f)  k == Utf8Bytes(r.cps)  lk == Len(k)  a == r.pre * lf IN
+  /\ ~r.gerr
+  /\ Len(r.got) = a + lk + r.post * lf
+  /\ \A i \in 1..Len(r.got) :
+        r.got[i] = (IF i <= a THEN f[((i - 1) % lf) + 1] ELSE IF i <= a + lk THEN k[i - a] ELSE f[((i - a - lk - 1) % lf) + 1])
+FailsE2E(r) == IF E2EOk(r) THEN {} ELSE {"e2e"}
 Fails(r) == IF r.kind = "unit" THEN FailsUnit(r) ELSE FailsE2E(r)
 
 InOrder == (Ordered /\ l <= Len(Trace)) => Trace[l].kind = "unit" /\ Trace[l].cps = <<NthScalar(Base + l - 1)>>
